@@ -36,6 +36,11 @@ type fileSpec struct {
 	Go     bool   `json:"go"`
 	Sync   bool   `json:"sync"`
 	OS     bool   `json:"os"`
+	// Calls redirects calls of a package-level function (written pkg.Func in
+	// the source) to an identifier the harness defines in the same package: a
+	// seam for calls that would leave the simulation (a real socket dial).  The
+	// tool fails if a listed call does not occur.
+	Calls map[string]string `json:"calls,omitempty"`
 }
 
 type site struct {
@@ -134,6 +139,34 @@ func weaveFile(src, rel string, raw []byte, fs fileSpec) ([]byte, error) {
 			imp.Name = ast.NewIdent("os")
 		case p == "verifsim/verifrt":
 			return nil, fmt.Errorf("file already imports verifrt")
+		}
+	}
+	if len(fs.Calls) > 0 {
+		seen := map[string]int{}
+		ast.Inspect(f, func(n ast.Node) bool {
+			call, ok := n.(*ast.CallExpr)
+			if !ok {
+				return true
+			}
+			sel, ok := call.Fun.(*ast.SelectorExpr)
+			if !ok {
+				return true
+			}
+			x, ok := sel.X.(*ast.Ident)
+			if !ok {
+				return true
+			}
+			name := x.Name + "." + sel.Sel.Name
+			if to, ok := fs.Calls[name]; ok {
+				call.Fun = ast.NewIdent(to)
+				seen[name]++
+			}
+			return true
+		})
+		for name := range fs.Calls {
+			if seen[name] == 0 {
+				return nil, fmt.Errorf("call %s not found: the seam it was to provide no longer exists", name)
+			}
 		}
 	}
 	if fs.Yields || fs.Go {
